@@ -128,20 +128,33 @@ unis0 = list(v._universes)
 PROG_WL = '''
 from edgegraph.structure import Vertex, DirectedEdge, UnDirectedEdge, Universe
 from edgegraph.structure.universe import UniverseLaws
-wl = {Vertex: {Vertex: DirectedEdge}}
+if start == 0:
+    wl = {Vertex: {Vertex: DirectedEdge}}
+    want = {Vertex: {Vertex: DirectedEdge}}
+elif start == 1:
+    wl = {}
+    want = {}
+else:
+    wl = {Vertex: {}}
+    want = {Vertex: {}}
 L = UniverseLaws(edge_whitelist=wl)
 def plain(m):
     return {k: dict(x) for k, x in m.items()}
-want = {Vertex: {Vertex: DirectedEdge}}
 # (1) mutate the dictionary that was passed in
 if step == 0:
     wl[Universe] = {}
 elif step == 1:
-    wl[Vertex][Universe] = UnDirectedEdge
+    if Vertex in wl:
+        wl[Vertex][Universe] = UnDirectedEdge
+    else:
+        wl[Vertex] = {Universe: UnDirectedEdge}
 elif step == 2:
-    wl[Vertex].clear()
+    if Vertex in wl:
+        wl[Vertex].clear()
+    wl[Universe] = {Vertex: DirectedEdge}
 elif step == 3:
     wl.clear()
+    wl[Vertex] = {Vertex: UnDirectedEdge}
 in_ok = plain(L.edge_whitelist) == want
 # (2) try to mutate what is handed out, at both levels
 out = L.edge_whitelist
@@ -151,7 +164,10 @@ try:
 except TypeError:
     blocked = blocked + 1
 try:
-    out[Vertex][Universe] = UnDirectedEdge
+    if Vertex in out:
+        out[Vertex][Universe] = UnDirectedEdge
+    else:
+        out[Vertex] = {}
 except TypeError:
     blocked = blocked + 1
 out_ok = plain(L.edge_whitelist) == want
@@ -239,7 +255,7 @@ def scenario(B, p):
     verts = make_vertices(B, 3)
     links = make_links(B, ["DE", "UE"])
     if p["kind"] == "whitelist":
-        out = B.run(PROG_WL, {"step": B.choice("step", 4)})
+        out = B.run(PROG_WL, {"step": B.choice("step", 4), "start": B.choice("start", 3)})
         B.reach("whitelist")
         B.prove("mutating the dict passed as edge_whitelist does not change the laws", out["in_ok"])
         B.prove("the handed-out whitelist rejects assignment at both levels", out["blocked"] == 2)
